@@ -4,3 +4,6 @@ package file
 
 // verifEvent is a no-op unless the package is built with the `verif` tag.
 func verifEvent(*WatchingSource, string) {}
+
+// verifAfterValue is a no-op unless the package is built with the `verif` tag.
+func verifAfterValue(*WatchingSource) {}
